@@ -10,7 +10,7 @@ import (
 // genC09: partial map forests through interleavings of Modify / Verify(remember) / Ingest / Prune / Undo,
 // also started from bare roots at a reached state.
 func genC09(cfg runCfg, e *emitter, rng *rand.Rand) {
-	nHist := tierN(cfg, 600, 10000)
+	nHist := tierN(cfg, 1000, 10000)
 	rowsChoices := []uint8{0, 4, 63}
 	for hI := 0; hI < nHist; hI++ {
 		e.line("CASE part%d", hI)
